@@ -58,12 +58,14 @@ def outNames (q : SelectStmt) (keys : List String) : List String :=
 def outExprs (q : SelectStmt) (keys : List String) : List Expr :=
   if q.wildcard then keys.map Expr.column else q.projections.map (·.2)
 
-/-- the row of one environment: WHERE, then the projections, both evaluated on that environment alone -/
+/-- the row of one environment: WHERE, then the projections, both evaluated on that environment alone. WHERE is a
+condition: it holds (BOOLEAN true), does not hold (BOOLEAN false, NULL), or — a value of another type — has no truth
+value, and then the answer is an error, not "no row" (C03: a type mismatch is reported) -/
 def envRow (O : Oracles) (q : SelectStmt) (env : Env) (keys : List String) : Outcome (Option (List Value)) := do
   let valid ← (match q.filter with
     | some f => do
       let v ← eval O env f
-      pure v.truthy
+      condHolds v
     | none => pure true : Outcome Bool)
   if valid then do
     let vals ← evalList O env (outExprs q keys)
